@@ -460,6 +460,19 @@ func init() {
 	})
 	register("C05", func(c *core.Ctx) {
 		asCheck(c, asPlan{prop: "C05", monitors: []string{"LifecycleMon"}, mc: []string{"MC_T3_" + asVariant + ".cfg"}, gen: []string{"Gen_T3_" + asVariant + ".cfg"}, ops: asOpsBasic,
-			rule: base + "Judged by LifecycleMon."})
+			rule: base + "Judged by LifecycleMon. Plus an ungated run: thousands of spawns next to a greeter that reacts to ActorSpawnedEvent and a sender that tells children by path, with a delay injected just before OnLaunch is enqueued."})
+		if c.IsBroken() {
+			return
+		}
+		for _, byPath := range []bool{false, true} {
+			st, err := runFirstMessageStress(core.Pick(c, 3000, 20000), byPath)
+			if err != nil {
+				c.Broken("first-message stress: %v", err)
+				return
+			}
+			res := ValidateTraces(c, "asmon", "LifecycleMon", "LifecycleMon.cfg", st, asDefaults)
+			res.Report(c, "LifecycleMon")
+			c.Add("traces_validated_against_impl", int64(res.Validated))
+		}
 	})
 }
